@@ -31,8 +31,15 @@ import warnings  # noqa: E402
 warnings.filterwarnings("ignore")
 import numpy as np  # noqa: E402
 
-EXTRA_MODULES = {"C16": ["Dreye.Props.C16Bary", "Dreye.Props.Linalg"], "C06": ["Dreye.Props.Linalg", "Dreye.Props.C06Pivot", "Dreye.Props.C06Bridge", "Dreye.Props.C06Exact"],
-                 "C04": ["Dreye.Props.Cert"], "C08": ["Dreye.Props.Cert"], "C09": ["Dreye.Props.Cert"], "C10": ["Dreye.Props.Cert"]}
+EXTRA_MODULES = {
+    "C03": ["Dreye.Props.ExtrasA"],
+    "C04": ["Dreye.Props.Cert", "Dreye.Props.ExtrasA"],
+    "C05": ["Dreye.Props.ExtrasA"],
+    "C06": ["Dreye.Props.Linalg", "Dreye.Props.C06Pivot", "Dreye.Props.C06Bridge", "Dreye.Props.C06Exact", "Dreye.Props.ExtrasB"],
+    "C08": ["Dreye.Props.Cert"], "C09": ["Dreye.Props.Cert"], "C10": ["Dreye.Props.Cert"],
+    "C16": ["Dreye.Props.C16Bary", "Dreye.Props.Linalg"],
+    "C19": ["Dreye.Props.ExtrasB"],
+}
 # namespaces (besides Dreye.<prop>) whose theorems count as obligations of a property
 EXTRA_PREFIX = {"C16": ["Dreye.LinalgProps."], "C06": ["Dreye.LinalgProps."], "C04": ["Dreye.Cert."], "C08": ["Dreye.Cert."],
                 "C09": ["Dreye.Cert."], "C10": ["Dreye.Cert."]}
@@ -240,8 +247,20 @@ def grep_forbidden():
 
 
 def lean_obligations(prop, tier):
-    """build + audit the theorems of Dreye.Props.<prop>.
-    returns dict(ok, theorems=[(name, axioms)], problems=[...], checker_cmd, wall_s)"""
+    """build + audit the theorems of Dreye.Props.<prop> (serialised across concurrent checks: the thorough tier
+    rebuilds a property's module in place, which must not race with another check's build or audit)."""
+    import fcntl
+    os.makedirs(os.path.join(LEAN, ".lake"), exist_ok=True)
+    with open(os.path.join(LEAN, ".lake", "verif.lock"), "w") as lk:
+        fcntl.flock(lk, fcntl.LOCK_EX)
+        try:
+            return _lean_obligations(prop, tier)
+        finally:
+            fcntl.flock(lk, fcntl.LOCK_UN)
+
+
+def _lean_obligations(prop, tier):
+    """returns dict(ok, theorems=[(name, axioms)], problems=[...], checker_cmd, wall_s)"""
     t0 = time.time()
     mod = "Dreye.Props.%s" % prop
     # extra modules holding further theorems of the same property (namespace Dreye.<prop>)
@@ -400,7 +419,8 @@ class Run:
         return np.random.default_rng([self.seed & 0x7FFFFFFF] + [int(k) for k in key])
 
     def want(self, k):
-        return self.only_case is None or str(self.only_case) == str(k)
+        # a case key may carry a sub-case suffix (s57_5 = system 57, target 5): the system-level filter accepts it
+        return self.only_case is None or str(self.only_case) == str(k) or str(self.only_case).startswith(str(k) + "_")
 
     # -- bookkeeping ---------------------------------------------------------------------------
     def count(self, key, n=1):
@@ -474,6 +494,11 @@ class Run:
                 seed=self.seed, tier=self.tier)
             rp = self.write_replay("broken_%d.json" % self.seed, what)
             lines.append("VIOLATION property=%s replay=%s no-failing-input-found" % (self.prop, rp))
+        if self.a_fail:
+            self.write_replay("afail_%d.json" % self.seed, dict(property=self.prop, seed=self.seed, tier=self.tier,
+                              correspondence_failures=[dict(case=c, what=w) for c, w in self.a_fail[:50]]))
+            for c, w in self.a_fail[:5]:
+                print("A-fail: %s [%s]" % (w, c.get("k", "") if isinstance(c, dict) else ""), file=sys.stderr)
         n_thm = len(lean["theorems"])
         obligations = n_thm + self.cert_total + (1 if True else 0)  # +1: the correspondence itself
         discharged = (n_thm if lean["ok"] else 0) + self.cert_ok + (0 if self.a_fail else 1)
